@@ -31,6 +31,16 @@ CHECKS = {
         ref="§6 C13, §8 F1/F5",
         note="Trusts kernel+VM, hand model (tied by chargen/wlgen families with budgets, zero-valued recipes, exhaustion and last-attempt tapes), exact-rational vs float64 decision compared except within 0.5% of the threshold (counted as borderline). No axioms.",
         technique="Coq proof (case analysis of the generator term, big-integer guard band by vm_compute facts) + differential correspondence + exact-arithmetic decision oracle"),
+    "C11": dict(
+        text="Theorems for every non-empty token sequence of valid-UTF-8 values of at most 255 characters (any type bytes, empty values included): MakeIndices succeeds, Tokenize(String(), index) returns exactly the tokens, and the index has the documented size per kind; a token over 255 characters is an error; an index is never lossy; the kind conditions are characterised; the pinned byte-length encoder is refuted on concrete witnesses (F3, F3b).",
+        ref="§6 C11, §8 F3/F3b",
+        note="Trusts kernel+VM, the transcription of token.go (tied by the token family and by the round trip carried in every generated password of every family), the UTF-8 segmentation model explode (fuzzed through tokenize on invalid/truncated input). Entropy pass-through is compared, not proved. Domain: text (valid UTF-8) values; invalid bytes can fuse across token boundaries. No axioms.",
+        technique="Coq proof (explode_app on valid UTF-8, slice round-trip lemmas per kind) + differential correspondence + direct round-trip oracle"),
+    "C12": dict(
+        text="Theorems for ALL byte strings as password and as index: tokenize never panics (the model carries Go's bounds checks as explicit Panic outcomes); returned tokens are consecutive slices whose concatenation is a prefix; exact character counts and types per kind; empty index, unknown kind, truncated full index and excessive lengths are errors; the pinned code is refuted by the witness (\"abc\", [3,1]) (F4).",
+        ref="§6 C12, §8 F4",
+        note="Trusts kernel+VM, the transcription of Tokenize incl. explicit bounds checks (tied by the tokenize family: kind byte exhaustive 0..255, both parities, invalid UTF-8), harness panic recovery. No axioms.",
+        technique="Coq proof (structural recursion with explicit panic outcomes) + differential correspondence + direct totality/prefix oracle"),
 }
 PENDING = {}
 
